@@ -81,7 +81,13 @@ func wildcardMatch(pat []byte, str []byte) bool {
 			return len(str) == 0
 		}
 		if len(str) == 0 {
-			return false
+			// Only a run of '*' matches the empty string.
+			for _, c := range pat {
+				if c != '*' {
+					return false
+				}
+			}
+			return true
 		}
 
 		if pat[0] == '*' {
